@@ -226,7 +226,10 @@ def run(ctx):
             f = "round trip raised %s: %s" % (type(e).__name__, str(e)[:120])
         case = {"master": mt, "values": repr(want)[:3000]}
         if f:
-            ctx.fail(case, f, finding=sorted(set(klass)), model_violates=None)
+            cls = set(klass)
+            if f.startswith("format -> extract"):
+                cls.discard("D15")      # an empty list has no SPELLING (the print/parse leg); format -> extract must keep it
+            ctx.fail(case, f, finding=sorted(cls), model_violates=None)
         # correspondence of format
         ev, fm0 = mgen.tables([mt])
         fm = {}
